@@ -65,6 +65,16 @@ impl Recorder {
     /// Facts about the output encoding of a returned suggestion (C16): does a candidate hold an emoji of the tables, does a
     /// pre-edit text hold a Bengali-block code point, is every pre-edit text the candidate itself / its Bijoy encoding.
     fn ansi_facts(&self, o: &Obs) -> Value {
+        self.ansi_facts_for(o, "")
+    }
+    /// ... `typed`: the text typed so far (phonetic method) - is it offered as it was typed although it holds letters?  (the
+    /// transliteration, a dictionary word or an auto-correct entry of a text with Latin letters is never that text itself)
+    fn ansi_facts_for(&self, o: &Obs, typed: &str) -> Value {
+        let mut v = self.ansi_facts_inner(o);
+        v["rawoffered"] = json!(!typed.is_empty() && typed.chars().any(|c| c.is_ascii_alphabetic()) && (o.kind == "full" || o.kind == "single") && o.cands.iter().any(|c| c == typed));
+        v
+    }
+    fn ansi_facts_inner(&self, o: &Obs) -> Value {
         let texts: Vec<&String> = if o.kind == "full" || o.kind == "single" { o.cands.iter().collect() } else { Vec::new() };
         let known = texts.iter().any(|c| crate::record::known_unencodable(c));
         json!({"anyemoji": texts.iter().any(|c| self.or.has_table_emoji(c)),
@@ -312,7 +322,7 @@ impl Recorder {
                     }
                     let cmp = boundary || self.rng.below(3) == 0 || i == plan.len();
                     let (f, what) = if cmp { self.shadow_compare(&cfg, &w, &o, !phon || ch.is_some(), sel) } else { ("skip", String::new()) };
-                    let af = self.ansi_facts(&o);
+                    let af = self.ansi_facts_for(&o, if phon { w.comp.as_str() } else { "" });
                     self.emit(merge(merge(json!({"ev": "key", "code": code, "mod": m, "sel": sel, "fresh": f, "fwhat": what}), Self::ret_fields(&o)), af));
                     if o.kind == "single" || o.kind == "full" { boundary = false; }
                     last = o;
@@ -544,15 +554,17 @@ impl Recorder {
     /// shorter now, its preselected index must lie inside it (C02), nothing the new configuration forbids is offered (C16),
     /// and it is the list of a brand-new context (C11).
     fn learn_last_then_flip(&mut self, shard: usize, shards: usize) {
-        let base = Cfg { layout: "phonetic".into(), psug: true, english: true, ansi: false, smart: false, db: true, ..Default::default() };
         let mut n = 0usize;
         for word in ["help", "ami", "atm", "smile"] {
-            for (flip, restart) in [(0usize, false), (1, false), (0, true), (1, true)] {
+            // (flip 0 / 1: the English text is learned, then ANSI on / English off; flip 2: English off from the start - the last
+            //  candidate of an emoji-name word is then an emoji - then ANSI on)
+            for (flip, restart) in [(0usize, false), (1, false), (2, false), (0, true), (1, true), (2, true)] {
                 n += 1;
                 if n % shards.max(1) != shard % shards.max(1) {
                     continue;
                 }
-                let after = if flip == 0 { Cfg { ansi: true, ..base.clone() } } else { Cfg { english: false, ..base.clone() } };
+                let base = Cfg { layout: "phonetic".into(), psug: true, english: flip != 2, ansi: false, smart: false, db: true, ..Default::default() };
+                let after = if flip != 1 { Cfg { ansi: true, ..base.clone() } } else { Cfg { english: false, ..base.clone() } };
                 clean_home(&self.home);
                 let mut ctx = match Ctx::new(&base, &self.home) { Ok(c) => c, Err(_) => continue };
                 self.emit(json!({"ev": "new", "cfg": cfg_json(&base)}));
@@ -587,7 +599,7 @@ impl Recorder {
                         }
                         w.comp.push(ch);
                         let (f, what) = if i + 1 == len { self.shadow_compare(&cur, &w, &o, true, sel) } else { ("skip", String::new()) };
-                        let af = self.ansi_facts(&o);
+                        let af = self.ansi_facts_for(&o, w.comp.as_str());
                         self.emit(merge(merge(json!({"ev": "key", "code": code, "mod": 0, "sel": sel, "fresh": f, "fwhat": what}), Self::ret_fields(&o)), af));
                         last = o;
                     }
